@@ -4,11 +4,11 @@
 # /verif/seeded/<seed id>/ (patch.diff, demo/, README.md, meta.json).
 import sys,os,subprocess,json,shutil,re,datetime
 src,sid,prop=sys.argv[1:4]
-r=subprocess.run(['/verif/tools/confirm_seed.sh',src],capture_output=True,text=True)
+r=subprocess.run(['/verif/tools/confirm_seed.sh',src],capture_output=True,text=True,errors='replace')
 print(r.stdout[-1500:])
 if 'CONFIRMED' not in r.stdout.splitlines()[-1:]:
     print('not kept'); sys.exit(1)
-t=subprocess.run(['/verif/tools/tryseed.sh',src,'all'],capture_output=True,text=True)
+t=subprocess.run(['/verif/tools/tryseed.sh',src,'all'],capture_output=True,text=True,errors='replace')
 viol=[l for l in t.stdout.splitlines() if re.match(r'^\S*: \[',l)]
 rules=sorted(set(re.findall(r'\] (C\d+\.[a-z0-9-]+)',' '.join(viol))))
 dst=f'/verif/seeded/{sid}'
@@ -19,7 +19,7 @@ open(f'{dst}/README.md','w').write(readme)
 meta={'seed':sid,'property':prop,'source':'independent sub-agent given only the property text and a scratch worktree',
  'needs_to_manifest':'see README.md (written by the sub-agent)',
  'confirmed_by':'tools/confirm_seed.sh in scratch worktree /tmp/wt_confirm: demo passes on the unchanged tree, fails with patch.diff applied; module builds and its existing tests pass with the change',
- 'confirmed_at':datetime.datetime.utcnow().isoformat()+'Z','repo_head':subprocess.run(['git','-C','/repo','rev-parse','HEAD'],capture_output=True,text=True).stdout.strip(),
+ 'confirmed_at':datetime.datetime.utcnow().isoformat()+'Z','repo_head':subprocess.run(['git','-C','/repo','rev-parse','HEAD'],capture_output=True,text=True,errors='replace').stdout.strip(),
  'checks_run':'tools/tryseed.sh <seed> all  (every registered check against the patched scratch worktree)',
  'detected':bool(viol),'detected_by_rules':rules,'violation_lines':[v[:400] for v in viol]}
 json.dump(meta,open(f'{dst}/meta.json','w'),indent=1)
